@@ -86,10 +86,9 @@ def _export_lexicon(lexicon: Lexicon, version: VersionInfo) -> lmf.Lexicon:
     # WN-LMF 1.0 lexicons put syntactic behaviours on lexical entries
     # WN-LMF 1.1 lexicons use a 'subcat' IDREFS attribute
     sbmap: _SBMap = {}
-    if version < (1, 1):
-        for sbid, frame, sids in find_syntactic_behaviours(lexicon_rowids=lexids):
-            for sid in sids:
-                sbmap.setdefault(sid, []).append((sbid, frame))
+    for sbid, frame, sids in find_syntactic_behaviours(lexicon_rowids=lexids):
+        for sid in sids:
+            sbmap.setdefault(sid, []).append((sbid, frame))
 
     lex: lmf.Lexicon = {
         'id': lexicon.id,
@@ -200,7 +199,10 @@ def _export_senses(
             'meta': _export_metadata(rowid, 'senses'),
         }
         if version >= (1, 1) and id in sbmap:
-            sense['subcat'] = sorted(sbid for sbid, _ in sbmap[id])
+            # frames without an id list their senses themselves
+            subcat = sorted(sbid for sbid, _ in sbmap[id] if sbid)
+            if subcat:
+                sense['subcat'] = subcat
         senses.append(sense)
     return senses
 
@@ -331,11 +333,15 @@ def _export_syntactic_behaviours_1_0(
 def _export_syntactic_behaviours_1_1(
     lexids: Sequence[int]
 ) -> list[lmf.SyntacticBehaviour]:
-    return [
-        {'id': id or '',
-         'subcategorizationFrame': frame}
-        for id, frame, _ in find_syntactic_behaviours(lexicon_rowids=lexids)
-    ]
+    frames: list[lmf.SyntacticBehaviour] = []
+    for id, frame, sids in find_syntactic_behaviours(lexicon_rowids=lexids):
+        sb: lmf.SyntacticBehaviour = {'id': id or '', 'subcategorizationFrame': frame}
+        if not id:
+            # without an id the senses cannot refer to the frame via
+            # 'subcat', so the frame lists its senses
+            sb['senses'] = sids
+        frames.append(sb)
+    return frames
 
 
 def _export_metadata(rowid: int, table: str) -> lmf.Metadata:
